@@ -271,6 +271,7 @@ impl Prop for C04 {
     }
     fn check(c: &Case, ctx: &mut Ctx) -> CheckResult {
         let inp = inputs(&c.base.b, &c.base.f)?;
+        crate::common::label_long(ctx, &c.base.b);
         let sc = inp.scales(c.base.area);
         let ep = eval_sound(&inp.comps, &inp.factors, c.base.k, c.base.area, c.base.lm)?;
         check_sums(&ep, &sc)?;
